@@ -13,6 +13,7 @@ from pexpect import pxssh, ExceptionPexpect
 
 from ..core.runner import split_range
 from ..core.watchdog import watchdog, CaseTimeout
+from ..monitors.expect_oracles import short
 from ..workloads.gen_expect import rng_for
 from ..workloads.puppetctl import PEERS, PY
 
@@ -33,7 +34,7 @@ ASSUMPTIONS = ['a scripted client stands in for OpenSSH (no network); "direct an
                'transcript: the fake\'s output since the previously received line matches the password_regex in force',
                'login_timeout=1 s, instance timeout 2 s; set_unique_prompt has hard-coded 10 s steps; overall bound 75 s per login']
 REQUIRED = ['dialogues', 'logins_true', 'logins_raised', 'password_deliveries_checked', 'yes_deliveries_checked',
-            'prompt_delimit_checks', 'enumerated_dialogues']
+            'prompt_delimit_checks', 'typed_ahead_delimit_checks', 'enumerated_dialogues']
 
 FAKE = os.path.join(PEERS, 'fakessh.py')
 PW = 's3cret-PW-9'
@@ -222,6 +223,29 @@ def one(case, acc):
                 want = T(ident + '\r\n')
                 if s.before not in (want, T('echo ' + ident + '\r\n') + want):
                     return v('prompt-does-not-delimit-output', 'echo %s: before=%r' % (ident, s.before))
+            if o['auto_prompt_reset']:
+                # commands typed ahead: their outputs (longer than any look-back a prompt search might use) are
+                # already there, or arrive together, when prompt() is called once per command
+                h = zlib.crc32(repr(case['steps']).encode())
+                cmds = []
+                for k in range(2 + h % 2):
+                    ident = 'TA%d%s' % (k, os.urandom(3).hex())
+                    n = [2, 12, 40, 150][(h >> (2 * k + 1)) % 4]
+                    cmds.append((ident, n))
+                    s.sendline('rep %d %s' % (n, ident))
+                time.sleep([0.0, 0.3][(h >> 8) % 2])
+                for k, (ident, n) in enumerate(cmds):
+                    acc.count('typed_ahead_delimit_checks')
+                    if not s.prompt(timeout=5):
+                        return v('prompt-not-found-typed-ahead', 'command %d of %r (before=%r)' % (k, cmds, short(s.before)))
+                    b = s.before if o['enc'] else s.before.decode('latin-1')
+                    mine = '-'.join([ident] * n) + '\r\n'
+                    for i2, n2 in cmds:
+                        # the tty echo of the typed commands may land anywhere (it is produced when they are typed)
+                        b = b.replace('rep %d %s\r\n' % (n2, i2), '')
+                    if b != mine:
+                        return v('prompt-does-not-delimit-output', 'typed ahead %r, prompt() #%d: before=%r' % (
+                            cmds, k, short(b)))
         else:
             return v('login-returns-without-success-or-exception', 'returned %r' % (ret,))
         if dt > 75:
